@@ -625,7 +625,7 @@ def reduce_post(c):
 
 REDUCE = REG.add(Contract(
     "las_items.HeaderItem.__reduce__", params={"self": HI}, ensures=reduce_post,
-    properties=("C17", "C13", "C03"), noraise=True))
+    properties=("C17", "C13", "C03", "C11"), noraise=True))
 
 
 # get() with an ITEM as default (C15: "get() without add=True never changes the section" - nor the default it was given)
